@@ -21,7 +21,7 @@ u16 ll_bswap_16(u16 x){ return (u16)((x<<8)|(x>>8)); }
 u32 ll_bswap_32(u32 x){ return (x<<24)|((x<<8)&0xff0000u)|((x>>8)&0xff00u)|(x>>24); }
 u64 ll_bswap_64(u64 x){ return ((u64)ll_bswap_32((u32)x)<<32)|ll_bswap_32((u32)(x>>32)); }
 /* llvm.is.fpclass mask bits: 0 sNaN,1 qNaN,2 -inf,3 -normal,4 -subnormal,5 -zero,6 +zero,7 +subnormal,8 +normal,9 +inf */
-u8 ll_is_fpclass_f(float x, u32 m){ u32 b; __builtin_memcpy(&b,&x,4); u32 s=b>>31, e=(b>>23)&0xff, f=b&0x7fffff; u32 c;
+u8 ll_is_fpclass_f(float x, u32 m){ union { float f; u32 u; } p_; p_.f = x; u32 b = p_.u; u32 s=b>>31, e=(b>>23)&0xff, f=b&0x7fffff; u32 c;
   if(e==0xff) c = f ? ((f>>22)? 1u<<1 : 1u<<0) : (s? 1u<<2 : 1u<<9); else if(e==0) c = f ? (s? 1u<<4 : 1u<<7) : (s? 1u<<5 : 1u<<6); else c = s? 1u<<3 : 1u<<8; return (c&m)!=0; }
-u8 ll_is_fpclass_d(double x, u32 m){ u64 b; __builtin_memcpy(&b,&x,8); u32 s=(u32)(b>>63), e=(u32)((b>>52)&0x7ff); u64 f=b&0xfffffffffffffULL; u32 c;
+u8 ll_is_fpclass_d(double x, u32 m){ union { double f; u64 u; } p_; p_.f = x; u64 b = p_.u; u32 s=(u32)(b>>63), e=(u32)((b>>52)&0x7ff); u64 f=b&0xfffffffffffffULL; u32 c;
   if(e==0x7ff) c = f ? ((f>>51)? 1u<<1 : 1u<<0) : (s? 1u<<2 : 1u<<9); else if(e==0) c = f ? (s? 1u<<4 : 1u<<7) : (s? 1u<<5 : 1u<<6); else c = s? 1u<<3 : 1u<<8; return (c&m)!=0; }
